@@ -58,6 +58,15 @@ class _SubRejected(_Base):
         self.x = 2
 
 
+class _MainBean(object):
+    """An instance of a class defined in the application's main script."""
+
+    __module__ = "__main__"
+
+    def __init__(self):
+        self.v = 3
+
+
 class _BadDump(object):
     """An object whose conversion to JSON fails inside jsonclass.dump."""
 
@@ -214,6 +223,8 @@ class SysRun(object):
                     return _BadDump()
                 if kind == "baddump-lookup":
                     return _BadDumpLookup()
+                if kind == "mainbean":
+                    return _MainBean()
                 if kind == "inf":
                     return [float("inf"), "a result beyond the range of JSON numbers"]
                 if kind == "selfref":
@@ -641,6 +652,21 @@ class SysRun(object):
                 sock.sendall(head + body)
             elif mode == "garbage":
                 sock.sendall(b"\x00\xff\x16\x03\x01 not http at all\r\n\r\n")
+            elif mode == "hold-open":
+                # a well-behaved exchange, after which the client neither sends nor closes until the end of the run
+                sock.sendall(head + body)
+                got = b""
+                try:
+                    while True:
+                        b = sock.recv(65536)
+                        if not b:
+                            break
+                        got += b
+                except OSError:
+                    pass
+                self.held = getattr(self, "held", [])
+                self.held.append(sock)
+                return "hold-open:" + ("answered" if got.startswith(b"HTTP/") else "closed")
             elif mode == "no-length":
                 # a body without Content-Length, and a client that keeps its connection open until it is answered
                 # (or the server closes): the server cannot know where the body ends
@@ -656,7 +682,8 @@ class SysRun(object):
                     pass
                 mode = "no-length:" + ("answered" if got.startswith(b"HTTP/") else "closed")
         finally:
-            sock.close()
+            if sock not in getattr(self, "held", []):
+                sock.close()
         return mode
 
     def client_body(self, ci):
@@ -803,6 +830,11 @@ class SysRun(object):
             s.emit("listener.fileno", srv.socket.fileno())
             if serve_thread is not None:
                 self.wait_threads([serve_thread])
+        for sock in getattr(self, "held", []):
+            try:
+                sock.close()
+            except OSError:
+                pass
         s.sleep(8.0)
         alive = [(t.tid, t.name) for t in s.threads if t.role == "thread" and t.state != core.DONE]
         s.emit("end", alive)
